@@ -123,6 +123,14 @@ CHECKS["C13"] = dict(
     technique="CrossHair symbolic execution of the type-construction and view code with PEP316 post-conditions",
     engine="E-PY",
 )
+CHECKS["C10"] = dict(
+    category="other",
+    text="PARTIAL claim: argument binding and starred-target splitting only. CrossHair executes the real FunctionDefinition.bind_args for a bank of 18 signatures (every mix of positional-only, positional-or-keyword, *args, keyword-only, **kwargs, defaults, up to 4 parameters) with a symbolic call shape (0..5 positionals, any subset of keyword names a,b,c,d,x) and compares with CPython's inspect.Signature.bind + apply_defaults: same binding or both reject; likewise PrepareAst._split_target vs real starred assignment. 19 conditions, all must be 'Confirmed over all paths'.",
+    design_ref="DESIGN.md 3/C10, 4",
+    note="Not claimed: equivalence of the statement/expression tracer (apply_impl) with CPython (closures, classes, comprehensions, operator dispatch): symbolic values cannot flow through the tracer and the remaining quantifier is over program text -- outside the reach of solver-based checking here.",
+    technique="CrossHair symbolic execution of bind_args vs inspect.Signature.bind (differential, call shapes symbolic)",
+    engine="E-PY",
+)
 NA = {}
 manifest = {
     "version": 1,
